@@ -206,6 +206,16 @@ func (g *vgen) val(depth int) *Val {
 			return g.leaf()
 		}
 		return g.user(depth-1, nil)
+	case 17:
+		if g.noUsers || r.coin(1, 2) {
+			return g.leaf()
+		}
+		// SafeValue fields rendered by a method, then unexported strings
+		l := &Val{K: "usr", UK: 9, ID: newID(), Script: []*Act{{K: "ret", S: g.str()}}}
+		if r.coin(1, 2) {
+			return &Val{K: "st", GoT: "St4", Elems: []*Val{l, {K: "s", GoT: "string", S: g.str()}}}
+		}
+		return &Val{K: "st", GoT: "St5", Elems: []*Val{{K: "s", GoT: "string", S: g.str()}, l, {K: "s", GoT: "SvStr", S: g.str()}, {K: "s", GoT: "string", S: g.str()}}}
 	default:
 		return g.leaf()
 	}
@@ -241,7 +251,7 @@ func (g *vgen) user(depth int, kinds []int) *Val {
 		v.Script = append(v.Script, &Act{K: "ret", S: g.str()})
 	} else {
 		if r.coin(1, 8) {
-			v.Script = []*Act{{K: "panic", Args: []*Val{g.panicPayload(depth)}}}
+			v.Script = []*Act{g.panicAct(depth)}
 		} else {
 			v.Script = []*Act{{K: "ret", S: g.str()}}
 		}
@@ -251,15 +261,30 @@ func (g *vgen) user(depth int, kinds []int) *Val {
 
 func (g *vgen) panicPayload(depth int) *Val {
 	r := g.rng
-	switch r.intn(5) {
+	switch r.intn(6) {
 	case 0:
 		return &Val{K: "i", GoT: "int", I: 42}
 	case 1:
 		if depth > 0 && !g.noUsers {
 			return g.user(depth-1, []int{0, 1}) // Stringer / error payload (may itself panic)
 		}
+	case 2:
+		if !g.noUsers {
+			// a nil pointer whose String/Error method panics on the nil receiver: reported as <nil>
+			v := g.user(0, []int{0, 1})
+			v.PtrK = 2
+			return v
+		}
 	}
 	return &Val{K: "s", GoT: "string", S: g.str()}
+}
+
+// a panic action: a value payload, or a genuine runtime error carrying a number
+func (g *vgen) panicAct(depth int) *Act {
+	if g.rng.coin(1, 4) {
+		return &Act{K: "panicrt", N: int64(3 + g.rng.intn(9000))}
+	}
+	return &Act{K: "panic", Args: []*Val{g.panicPayload(depth)}}
 }
 
 func (g *vgen) script(depth int) []*Act {
@@ -275,6 +300,23 @@ func (g *vgen) script(depth int) []*Act {
 var someRunes = []int64{'a', '\n', 0x2039, 0x203a, 0xd7, 0xe9, 0x1f6d1, 0xfffd, -1, 0xd800, 0x110000}
 var someBytes = []int64{'a', '\n', ' ', 0xe2, 0x80, 0xb9, 0xba, '?'}
 
+// with validUtf8 only bytes that are complete characters and runes that encode as themselves
+func (g *vgen) byteVal() int64 {
+	b := someBytes[g.rng.intn(len(someBytes))]
+	if g.validUtf8 && b >= 0x80 {
+		return 'a'
+	}
+	return b
+}
+
+func (g *vgen) runeVal() int64 {
+	r := someRunes[g.rng.intn(len(someRunes))]
+	if g.validUtf8 && !utf8.ValidRune(rune(r)) {
+		return 0xe9
+	}
+	return r
+}
+
 func (g *vgen) action(depth int) *Act {
 	r := g.rng
 	if g.fmtCompat {
@@ -288,7 +330,7 @@ func (g *vgen) action(depth int) *Act {
 			return &Act{K: "dump"}
 		case 4:
 			if r.coin(1, 3) {
-				return &Act{K: "panic", Args: []*Val{g.panicPayload(depth)}}
+				return g.panicAct(depth)
 			}
 		}
 		return &Act{K: "write", S: g.str()}
@@ -311,19 +353,19 @@ func (g *vgen) action(depth int) *Act {
 		}
 		return &Act{K: "sf", F: floatVals[r.intn(len(floatVals))]}
 	case 6:
-		return &Act{K: "sr", N: someRunes[r.intn(len(someRunes))]}
+		return &Act{K: "sr", N: g.runeVal()}
 	case 7:
-		return &Act{K: "sb", N: someBytes[r.intn(len(someBytes))]}
+		return &Act{K: "sb", N: g.byteVal()}
 	case 8:
 		return &Act{K: "sbs", S: g.str()}
 	case 9, 10:
 		return &Act{K: "us", S: g.str()}
 	case 11:
-		return &Act{K: "ub", N: someBytes[r.intn(len(someBytes))]}
+		return &Act{K: "ub", N: g.byteVal()}
 	case 12:
 		return &Act{K: "ubs", S: g.str()}
 	case 13:
-		return &Act{K: "ur", N: someRunes[r.intn(len(someRunes))]}
+		return &Act{K: "ur", N: g.runeVal()}
 	case 14, 15:
 		if depth > 0 {
 			n := r.intn(3)
@@ -347,7 +389,7 @@ func (g *vgen) action(depth int) *Act {
 		return &Act{K: "dump"}
 	default:
 		if r.coin(1, 3) {
-			return &Act{K: "panic", Args: []*Val{g.panicPayload(depth)}}
+			return g.panicAct(depth)
 		}
 		return &Act{K: "ss", S: g.str()}
 	}
@@ -465,7 +507,23 @@ func (g *vgen) formatFor(depth, n int) ([]*Val, string) {
 	case 4:
 		f += "%[9]d"
 	case 5:
-		f += "%[1]*d"
+		// a width taken from the first operand; keep accepted widths small (a padding of tens of
+		// thousands of bytes only costs time in the list-based model)
+		big := false
+		if len(args) > 0 {
+			a0 := args[0]
+			switch a0.K {
+			case "i":
+				x := reflect.ValueOf(a0.Build()).Int()
+				big = (x > 300 || x < -300) && x <= 1000000 && x >= -1000000
+			case "u":
+				x := reflect.ValueOf(a0.Build()).Uint()
+				big = x > 300 && x <= 1000000
+			}
+		}
+		if !big {
+			f += "%[1]*d"
+		}
 	}
 	return args, f
 }
@@ -593,6 +651,8 @@ func buildOracle(c *pcase) string {
 			strs[a.S] = true
 		case "printf":
 			formats = append(formats, a.S)
+		case "panicrt":
+			strs[rtPanicMsg(a.N)] = true
 		case "sf":
 			floats = append(floats, struct {
 				bits uint64
@@ -776,6 +836,7 @@ func runPCase(c *pcase) string {
 	collectActs(c.hook, func(x *Val) { x.Build() }, func(*Act) {})
 
 	var entry, obs string
+	var ret *string // the string handed to the caller (zero-copy from the printer's buffer)
 	func() {
 		defer func() {
 			if r := recover(); r != nil {
@@ -784,11 +845,17 @@ func runPCase(c *pcase) string {
 		}()
 		switch c.entry {
 		case "sprint":
-			obs = sx("out", hxs(string(redact.Sprint(args...))))
+			s := string(redact.Sprint(args...))
+			ret = &s
+			obs = sx("out", hxs(s))
 		case "sprintf":
-			obs = sx("out", hxs(string(redact.Sprintf(c.format, args...))))
+			s := string(redact.Sprintf(c.format, args...))
+			ret = &s
+			obs = sx("out", hxs(s))
 		case "errorf":
 			s, e := redact.HelperForErrorf(c.format, args...)
+			ss := string(s)
+			ret = &ss
 			obs = sx("out", hxs(string(s)), itoa(errID(e)))
 		case "fprint":
 			w := &countWriter{}
@@ -804,6 +871,8 @@ func runPCase(c *pcase) string {
 					runAction(a, p)
 				}
 			})
+			ss := string(s)
+			ret = &ss
 			obs = sx("out", hxs(string(s)))
 		case "builder":
 			var sb redact.StringBuilder
@@ -813,6 +882,11 @@ func runPCase(c *pcase) string {
 			obs = sx("out", hxs(string(sb.RedactableString())))
 		}
 	}()
+	if len(obs) > 60000 {
+		// a padding of tens of thousands of bytes: the list-based model needs quadratic time for
+		// it; such cases are left to the black-box predicates
+		return ""
+	}
 	switch c.entry {
 	case "sprint", "fprint":
 		entry = sx(c.entry, dslAll(c.args))
@@ -825,7 +899,55 @@ func runPCase(c *pcase) string {
 	if c.useHook {
 		env = sx("hook", actsDSL(c.hook))
 	}
-	return sx("pcase", entry, env, buildOracle(c), obs)
+	return sx("pcase", entry, env, buildOracle(c), obs) + postCheck(ret, entry)
+}
+
+// After a call has returned: (1) unrelated calls that reuse the pooled printers must give the
+// results a fresh process gives (nothing of this call may stick to a recycled printer: override,
+// panicking flag, captured error, buffer); (2) the string already handed to the caller must not
+// change under those later calls (it shares the backing array of the printer's buffer).
+var churnWant [3]string
+var churnInit bool
+
+func churn() [3]string {
+	return [3]string{
+		string(redact.Sprint("0123456789abcdefghijklmnopqrstuvwxyz", 12345)),
+		string(redact.Sprintf("%v|%5d|%s", "zzzzzzzzzzzzzzzzzzzzzzzz", 77, redact.Safe("ok"))),
+		string(redact.Sprint(churnStringer{}, 1.5)),
+	}
+}
+
+type churnStringer struct{}
+
+func (churnStringer) String() string { panic("churn-panic") }
+
+func postCheck(ret *string, entry string) string {
+	if !churnInit {
+		return ""
+	}
+	var saved string
+	if ret != nil {
+		saved = string(append([]byte(nil), *ret...))
+	}
+	var got [3]string
+	p, _ := try(func() { got = churn() })
+	out := ""
+	okC := !p && got == churnWant
+	if !okC {
+		out += "\n" + fmt.Sprintf("(qtrue C12 %s %s %s)", hxs("after this call, unrelated calls on recycled printers differ from those of a fresh process"), b01(okC),
+			hxs(fmt.Sprintf("got %q want %q after %s", got, churnWant, entry)))
+	}
+	if ret != nil && *ret != saved {
+		out += "\n" + fmt.Sprintf("(qtrue C11 %s 0 %s)", hxs("output already handed to the caller was overwritten by later, unrelated print calls"),
+			hxs(fmt.Sprintf("was %q now %q after %s", saved, *ret, entry)))
+	}
+	return out
+}
+
+func init() {
+	// the reference results, taken at process start before any case has run
+	churnWant = churn()
+	churnInit = true
 }
 
 func concat(ws [][]byte) []byte {
@@ -881,7 +1003,7 @@ func valCanPanic(v *Val) bool {
 	var walkV func(v *Val)
 	var walkA func(a *Act)
 	walkA = func(a *Act) {
-		if a.K == "panic" {
+		if a.K == "panic" || a.K == "panicrt" {
 			can = true
 		}
 		for _, x := range a.Args {
@@ -941,10 +1063,15 @@ func panicMayPropagate(c *pcase) bool {
 	}
 	for _, a := range c.hook {
 		walkA(a)
+		// a hook that panics is called again for the payload of its own panic when that payload is
+		// an error (a runtime error, an error value): a panic raised while a payload is printed
+		if c.useHook && (a.K == "panic" || a.K == "panicrt") {
+			may = true
+		}
 	}
 	for _, a := range c.acts {
 		walkA(a)
-		if a.K == "panic" && c.entry == "sprintfn" {
+		if (a.K == "panic" || a.K == "panicrt") && c.entry == "sprintfn" {
 			may = true
 		}
 	}
